@@ -439,13 +439,21 @@ def _impl(case, k):
         return impl_calib(case)
     if k == "lloss":
         # lorentzian_loss (module-level function of the anchored file) on a ScaledModel, as _fit_power_spectra calls it
-        from lumicks.pylake.force_calibration import power_spectrum_calibration as psc
-        from lumicks.pylake.force_calibration.detail.power_models import ScaledModel
+        try:
+            from lumicks.pylake.force_calibration import power_spectrum_calibration as psc
+            from lumicks.pylake.force_calibration.detail.power_models import ScaledModel
 
+            loss = psc.lorentzian_loss
+        except (ImportError, AttributeError) as e:
+            # neither has a public name: a moved / renamed one takes only this direct tie with it (the robust fit stays
+            # reachable through lk.fit_power_spectrum(loss_function="lorentzian") in the validation scope)
+            _reach["power_spectrum_calibration.lorentzian_loss / detail.power_models.ScaledModel"] = False
+            raise Unreachable(str(e))
+        _reach["power_spectrum_calibration.lorentzian_loss / detail.power_models.ScaledModel"] = True
         m = build_model(case["o"], case.get("fixed"))
         f, power = lloss_data(case, m)
         sm = ScaledModel(lambda ff, *q: m(ff, *q), np.asarray(case["scale"], dtype=float))
-        v = psc.lorentzian_loss(np.asarray(case["scaled"], dtype=float), sm, f, power, case["nblock"])
+        v = loss(np.asarray(case["scaled"], dtype=float), sm, f, power, case["nblock"])
         return ["ok " + enc_float(float(v))]
     if k == "calibval":
         import lumicks.pylake as lk
@@ -468,6 +476,11 @@ def _impl(case, k):
             f = cm.DiodeModel()
         else:
             f = cm.FixedDiodeModel(case["fixed"][0], case["fixed"][1])
+        if not all(hasattr(f, nm) for nm in ("initial_values", "lower_bounds", "upper_bounds")):
+            # accessors used only by fit_power_spectrum: renamed ones take only this direct tie with them
+            _reach["filter.initial_values/lower_bounds/upper_bounds"] = False
+            raise Unreachable("filter bound accessors")
+        _reach["filter.initial_values/lower_bounds/upper_bounds"] = True
         return ["ok " + " ".join(show_floats([float(v) for v in vals]) for vals in (f.initial_values, f.lower_bounds(), f.upper_bounds(case["rate"])))]
     if k == "fitval":
         # argument validation of lk.fit_power_spectrum on an exact Lorentzian of `npts` bins (fast sensor: 2 parameters)
